@@ -159,7 +159,9 @@ def ops_for(w, aw):
     a, b, f, p, u, d = S("a", w), S("b", w), S("f", 1), S("p", aw), S("u", w), S("d", w)
     out = [
         ["assign", d, a], ["assign", d, ["add", a, C(5, w)]], ["assign", a, ["sub", a, b]], ["assign", d, ["ite", f, a, b]],
-        ["assign", d, ["divu", a, b]], ["assign", d, ["mods", a, b]], ["assign", d, ["xor", ["shl", a, C(1, w)], ["shr", b, C(w - 1, w)]]],
+        ["assign", d, ["divu", a, b]], ["assign", d, ["mods", a, b]],
+        # only the selected arm of an ite is evaluated: a fault in the other arm must not surface
+        ["assign", d, ["ite", f, a, ["divu", a, b]]], ["assign", d, ["ite", ["cmpeq", b, C(0, w)], C(1, w), ["divs", a, b]]], ["store", p, ["ite", f, ["modu", a, b], b]], ["assign", d, ["xor", ["shl", a, C(1, w)], ["shr", b, C(w - 1, w)]]],
         ["assign", S("f", 1), ["cmplts", a, b]], ["assign", d, u], ["assign", d, ["add", a, u]],
         ["store", p, a], ["store", ["add", p, C(4, aw)], ["and", a, b]], ["store", p, u], ["store", S("q", aw), a],
         ["load", d, p], ["load", d, ["sub", p, C(1, aw)]], ["load", S("a", w), p], ["load", d, S("q", aw)],
@@ -389,7 +391,35 @@ def nonexhaustive(f, rnd):
     return f
 
 
+def check_branch_resolution(item):
+    """Driver::step across a Branch: the next location is the instruction of the program that has the target address
+    (validation with the real Driver; the reference is the address map of the program)."""
+    w = 64
+    def ins(op, addr): return {"op": op, "address": addr}
+    def blk(i, instrs): return {"index": i, "instructions": [dict(x, index=j) for j, x in enumerate(instrs)], "phis": []}
+    T = item["target"]
+    f1 = {"address": 0x1000, "cfg": {"blocks": [blk(0, [ins(["assign", S("x", w), C(1, w)], 0x1000), ins(["branch", C(T, w)], 0x1004)])], "edges": [], "entry": 0, "exit": 0}}
+    f2 = {"address": 0x2000, "cfg": {"blocks": [blk(0, [ins(["assign", S("y", w), C(2, w)], 0x2000), ins(["assign", S("z", w), C(3, w)], 0x2004)]),
+                                               blk(1, [ins(["assign", S("v", w), C(4, w)], 0x1ff0), ins(["assign", S("v", w), C(5, w)], 0x2008)])],
+                                    "edges": [{"head": 0, "tail": 1, "cond": None}], "entry": 0, "exit": 1}}
+    f3 = {"address": 0x3000, "cfg": {"blocks": [blk(0, [ins(["assign", S("t", w), C(6, w)], 0x3000), ins(["assign", S("t", w), C(7, w)], 0x1800)])], "edges": [], "entry": 0, "exit": 0}}
+    where = {0x1000: (0, 0, 0), 0x1004: (0, 0, 1), 0x2000: (1, 0, 0), 0x2004: (1, 0, 1), 0x1ff0: (1, 1, 0), 0x2008: (1, 1, 1), 0x3000: (2, 0, 0), 0x1800: (2, 0, 1)}
+    out = {"what": f"branch to {T:#x}", "paths": 1, "agree": 0, "findings": [], "solver_s": 0.0}
+    r = drv.call({"cmd": "exec", "arch": "amd64", "function": f1, "more_functions": [f2, f3], "scalars": {}, "mem": [], "steps": 2, "follow_branches": True, "report": ["x"], "watch": []})
+    if not r.get("ok"):
+        out["findings"].append({"kind": "driver-crash", "detail": str(r)[:200], "state": {}}); return out
+    exp = where.get(T)
+    if r.get("error"):
+        out["findings"].append({"kind": "driver-differs", "detail": f"branch to {T:#x} (an instruction of the program has this address) fails: {json.dumps(r['error'])[:160]}", "state": {"target": T}, "target": "branch"})
+    elif r.get("final_address") != T or r.get("final_function") != exp[0] or r.get("final_location") != ["ins", exp[1], exp[2]]:
+        out["findings"].append({"kind": "driver-differs", "detail": f"branch to {T:#x} continues at function {r.get('final_function')} {r.get('final_location')} address {r.get('final_address')}, expected function {exp[0]} ['ins', {exp[1]}, {exp[2]}]", "state": {"target": T}, "target": "branch"})
+    else:
+        out["agree"] += 1
+    return out
+
+
 def work(item):
+    if item["t"] == "branchres": return check_branch_resolution(item)
     return check_execute(item) if item["t"] == "exec" else check_driver(item)
 
 
@@ -413,6 +443,8 @@ def main():
     for f in nonex: f["meta"]["nonexhaustive"] = True
     for f in fs + holed + nonex:
         items.append({"t": "driver", "f": f, "k": ilcheck.k_for(f, rep.tier)})
+    for tgt in (0x2000, 0x2004, 0x1ff0, 0x2008, 0x1000, 0x3000, 0x1800):
+        items.append({"t": "branchres", "target": tgt})
     results = common.pmap(work, items, chunksize=2)
     fns = {}
     paths = 0; agree = 0; dpaths = 0
@@ -436,8 +468,8 @@ def main():
             dpaths += r["paths"]; agree += r["agree"]
             for f in r["findings"]:
                 rep.ground["failed"] += 1
-                role = "holes" if it["f"]["meta"].get("holes") else ("no-guard-holds" if it["f"]["meta"].get("nonexhaustive") else "any")
-                rep.violation(f"executor/Driver::step/{f['kind']}", f"{r['what']}: {f['detail']} from state {json.dumps(f['state'])[:200]}", {"function": it["f"], "finding": f})
+                sig = f"executor/Driver::step/{f['kind']}" + ("/branch-resolution" if it["t"] == "branchres" else "")
+                rep.violation(sig, f"{r['what']}: {f['detail']} from state {json.dumps(f['state'])[:200]}", {"function": it.get("f"), "finding": f})
     rep.ground["checked"] += dpaths
     rep.functions_encoded = [f"{k} [{v}]" for k, v in sorted(fns.items())][:60]
     rep.bounds = {"step": "one State::execute step per operation kind x expression shape x width", "widths": [c[0] for c in combos],
